@@ -129,18 +129,20 @@ class Ctx:
         }
 
 
-OBSERVE_QUOTA = 25   # cases per monitor (per shard) executed under the branch-arm observer
+OBSERVE_QUOTA = 25   # cases per monitor (per shard) executed under the branch-arm observer ...
+OBSERVE_SECONDS = 0.7  # ... and at most this much wall time per monitor and shard
 
 
 def run_cases(mod, ctx, only=None, observer=None):
     """Drive the generator of a property module through its monitors."""
     mons = mod.MONITORS
     observing = observer is not None
+    obs_time = {}
     for name, case in mod.cases(ctx):
         if observer is not None:
             # the observer costs ~6x on the instrumented functions: watch the first cases of every monitor only
             # (directed cases are generated first), then switch it off for that monitor
-            want = ctx.monitor_evals.get(name, 0) < OBSERVE_QUOTA
+            want = ctx.monitor_evals.get(name, 0) < OBSERVE_QUOTA and obs_time.get(name, 0.0) < OBSERVE_SECONDS
             if want != observing:
                 (observer.resume if want else observer.pause)()
                 observing = want
@@ -153,8 +155,11 @@ def run_cases(mod, ctx, only=None, observer=None):
             # always show at least one actual case per monitor (the monitors add richer samples at random)
             ctx.samples.append({"monitor": name, "case": json.loads(json.dumps(case, default=str)) if len(repr(case)) < 600
                                 else repr(case)[:600] + "..."})
+        t_obs = time.time() if observing else None
         try:
             fn(ctx, case)
+            if t_obs is not None:
+                obs_time[name] = obs_time.get(name, 0.0) + time.time() - t_obs
         except Exception as e:  # a monitor bug or an escaped exception of the SUT
             # the monitors catch SUT exceptions themselves where the property
             # speaks about them; anything arriving here is a harness error
